@@ -98,6 +98,9 @@ def op_cli(task):
     rnd.shuffle(samples)
     files = [(os.path.basename(p), open(p).read()) for p in samples[: (14 if thorough else 5)]]
     files.append(("clean.c", content("clean", "clean.c")))
+    # lexical diagnostics with several highlights at different columns (the printed position is the first)
+    files.append(("multi.c", HEADER.format(name="multi.c") + "\nint\tg_mode = 0389;\nint\tg_mask = 0b1231;\n\nint\tmain(void)\n"
+                  "{\n\tchar\tc;\n\n\tc = '\\q;\n\treturn (0);\n}\n"))
     files.append(("nonl.c", content("clean", "nonl.c").rstrip("\n")))        # no final newline
     files.append(("err.c", content("error", "err.c")))
     files.append(("def.c", HEADER.format(name="def.c") + "\n#define foo(x) x\n# define bar 1 +\n\nint\tmain(void)\n{\n\treturn (0);\n}\n"))
